@@ -136,6 +136,12 @@ pub fn alphabet(vs: bool, l: &LCfg) -> Vec<Hostile> {
     v.push(h("STREAM offset 2^62-1", &[st(p_bidi(1), (1 << 62) - 1, 1, false)], &[FLOW, FENC]));
     v.push(h("STREAM final size conflict", &[st(p_uni(1), 0, 5, true), st(p_uni(1), 5, 3, false)], &[FSIZE]));
     v.push(h("STREAM two different fins", &[st(p_uni(1), 0, 5, true), st(p_uni(1), 0, 4, true)], &[FSIZE]));
+    // three-frame stream histories around a known final size (the quick tier enumerates pairs of
+    // alphabet entries only)
+    v.push(h("STREAM fin, data beyond it, RESET_STREAM at the final size", &[st(p_uni(1), 0, 5, true), st(p_uni(1), 5, 3, false), WFrame::ResetStream { id: p_uni(1), code: 7, final_size: 5 }], &[FSIZE]));
+    v.push(h("STREAM fin, data beyond it, RESET_STREAM beyond", &[st(p_uni(1), 0, 5, true), st(p_uni(1), 5, 3, false), WFrame::ResetStream { id: p_uni(1), code: 7, final_size: 8 }], &[FSIZE]));
+    v.push(h("RESET_STREAM, data beyond its final size, RESET_STREAM again", &[WFrame::ResetStream { id: p_uni(1), code: 7, final_size: 4 }, st(p_uni(1), 4, 6, false), WFrame::ResetStream { id: p_uni(1), code: 7, final_size: 4 }], &[FSIZE]));
+    v.push(h("STREAM fin on bidi, data beyond it, STOP_SENDING + RESET_STREAM", &[st(p_bidi(1), 0, 5, true), st(p_bidi(1), 6, 2, false), WFrame::StopSending { id: p_bidi(1), code: 1 }, WFrame::ResetStream { id: p_bidi(1), code: 7, final_size: 5 }], &[FSIZE]));
     v.push(h("RESET_STREAM new", &[WFrame::ResetStream { id: p_uni(1), code: 7, final_size: 0 }], &[]));
     v.push(h("RESET_STREAM beyond window", &[WFrame::ResetStream { id: p_uni(1), code: 7, final_size: swin + 1 }], &[FLOW]));
     v.push(h("RESET_STREAM shrinking final size", &[st(p_uni(1), 0, 9, false), WFrame::ResetStream { id: p_uni(1), code: 7, final_size: 3 }], &[FSIZE]));
